@@ -12,15 +12,7 @@ for p in props:
     if not os.path.exists(path):
         na.append({"property_id": pid, "reason": "monitor not built yet in this round (planned: DESIGN.md section 3)"})
         continue
-    src = open(path).read()
-    ns = {}
-    # SPEC is a literal dict at module top; evaluate only that assignment
-    import ast
-    tree = ast.parse(src)
-    spec = {}
-    for node in tree.body:
-        if isinstance(node, ast.Assign) and getattr(node.targets[0], "id", "") == "SPEC":
-            spec = ast.literal_eval(node.value)
+    spec = importlib.import_module(f"vmon.props.{pid}").SPEC
     m = spec.get("manifest", {})
     checks.append({
         "property_id": pid,
